@@ -1,0 +1,39 @@
+//! Verification hook: dump of the archetype tables and lookups (read-only).
+
+use super::Archetypes;
+use crate::{
+    registry::Registry,
+    verif::{
+        Dump,
+        LookupDump,
+    },
+};
+
+impl<R> Archetypes<R>
+where
+    R: Registry,
+{
+    pub(crate) fn verif_dump(&self, dump: &mut Dump) {
+        for archetype in self.iter() {
+            dump.tables.push(archetype.verif_dump());
+        }
+        let table_of = |address: usize| -> i64 {
+            dump.tables
+                .iter()
+                .position(|table| table.key == address)
+                .map_or(-1, |position| position as i64)
+        };
+        for identifier in self.type_id_lookup.values() {
+            dump.type_lookup.push(LookupDump {
+                key_table: -3,
+                value_table: table_of(identifier.verif_address()),
+            });
+        }
+        for (slice, identifier) in &self.foreign_identifier_lookup {
+            dump.foreign_lookup.push(LookupDump {
+                key_table: table_of(slice.as_ptr() as usize),
+                value_table: table_of(identifier.verif_address()),
+            });
+        }
+    }
+}
